@@ -555,6 +555,8 @@ impl Storage {
                 min_filtered_block_number.to_le_bytes(),
             )
             .expect("batch put should be ok");
+        #[cfg(ckb_light_client_verif)]
+        crate::verif_hooks::point("write", "add_matched_blocks:batch");
         batch.commit().expect("batch commit should be ok");
     }
 
